@@ -270,13 +270,22 @@ def work(chunk_id, payload):
         tol = float(rng.choice([1e-4, 1e-6, 1e-8, 1e-10, 1e-12]))
         it = int(rng.choice([1, 2, 3, 5, 10, 30, 30, 100, 100]))
         radius = float(rng.choice([0.02, 0.05, 0.1]))
+        # far family: guesses well outside the basin.  Nothing is claimed
+        # about what such a solve finds; it must return, report a failure as
+        # documented and stay clean under the sanitizers while the step
+        # control backs off and restores earlier iterates
+        far = rng.random() < 0.2
+        if far:
+            radius = float(rng.choice([0.4, 0.8, 1.5]))
+            it = int(rng.choice([30, 100, 100]))
         sc, unk, info = lm_scenario(rng, ctype, r, c, F, radius)
         if sc is None:
             bump("skipped_not_well_determined")
             continue
         settings = dict(p_tol=tol, iter=it,
-                        m_error=(rng.random() < 0.3 and
+                        m_error=(rng.random() < (0.6 if far else 0.3) and
                                  ctype not in ("T16", "U16")))
+        info["far"] = far
         duts = sc.rand_dut()
         s, L = emit(sc, unk, settings, duts)
         cid = "lm%d_%d" % (chunk_id, k)
@@ -327,6 +336,8 @@ def work(chunk_id, payload):
                               info.get("tol"), info.get("iter"),
                               settings.get("m_error", False), len(unk)))
         bump("solves:" + path)
+        if info.get("far"):
+            bump("far_guess_solves")
         if es["ret"] != 0:
             bump("failed:" + path)
             bump("failed:%s:iter%s" % (path, info.get("iter")))
@@ -341,6 +352,9 @@ def work(chunk_id, payload):
             elif info["iter"] >= 30 and info["tol"] >= 1e-10 and \
                     info["radius"] <= 0.05 and not settings.get("m_error"):
                 bump("failed_in_basin")
+            continue
+        if info.get("far"):
+            bump("far_guess_solves_returned_success")
             continue
         bump("converged:" + path)
         if path == "lm" and info["iter"] >= 30 and info["tol"] >= 1e-10 and \
@@ -494,6 +508,8 @@ def main():
              "set plus 1..3 unknowns (single/double reflect, line, partially "
              "unknown matrix) and correlated parameters, tolerances "
              "1e-4..1e-12, iteration limits 1..100, with/without m_error; "
+             "a fifth of the LM solves start 0.4..1.5 away from the truth "
+             "(termination, failure report and sanitizers only); "
              "resolve: one unknown solved repeatedly on different grids, its "
              "value read back after each solve; "
              "distinct = distinct (path, type, shape, form, tolerance, "
